@@ -1376,7 +1376,7 @@ class LegCharge:
         """
         charges = self.charges.copy()
         if not self.sorted:
-            charges = charges[np.lexsort(self.charges.T), :]
+            charges = charges[lexsort(self.charges.T), :]  # (np.lexsort fails for qnumber == 0)
         charges = charges[_find_row_differences(charges)[:-1], :]
         return charges
 
